@@ -371,7 +371,25 @@ theorem C07_counterexample_cond_ideal :
     (checkSolution cexCondModel (cexOpts 3) [7, 0] [] false).hasReport = true := by
   decide +kernel
 
-/-! ### 7c. linear / quadratic functional constraints are never tested themselves
+/-! ### 7c. false alarm: a checkable constraint reading an orphaned result variable
+
+When `c ==> exists{…}` is redefined, the original `Or` is marked unused and its result variable fixed to 0, but the
+reformulated `ImplicationConstraint` remains checkable (top-level class) and still reads that variable.  The flat
+counterpart of the failing input found on the real code: every variable is within its bounds and there is no
+solver-side constraint at all (mode 1+8: no report), yet the default class "original constraints" (bit 2) reports. -/
+
+def cexOrphanModel : Model :=
+  ⟨[⟨some 0, some 1, true, true, "b", none⟩, ⟨some 0, some 0, true, false, "o", some (1, 0)⟩,
+    ⟨some 1, some 1, false, false, "t", none⟩, ⟨some 1, some 1, true, false, "r", some (0, 0)⟩],
+   [⟨"_impl", true, [⟨.func 3 .pos (.impl 0 1 2), 0, true, false, "imp"⟩]⟩,
+    ⟨"_or", true, [⟨.func 1 .pos (.or [0]), 0, true, true, "or"⟩]⟩], []⟩
+
+theorem C07_counterexample_orphan :
+    (checkSolution cexOrphanModel (cexOpts 9) [1, 0, 1, 1] [] false).hasReport = false ∧
+    (checkSolution cexOrphanModel (cexOpts 2) [1, 0, 1, 1] [] false).hasReport = true := by
+  decide +kernel
+
+/-! ### 7d. linear / quadratic functional constraints are never tested themselves
 
 `LinearFunctionalConstraint` / `QuadraticFunctionalConstraint` do not derive from `CustomFunctionalConstraint` and
 inherit `BasicConstraint::ComputeViolation` (`{0,0}`): a wrong solver value of `r = affine/quadratic expr` is only
